@@ -75,7 +75,7 @@ func newDiskCtx(p *Prog, r *Report, rule string) *diskCtx {
 			for _, b := range f.Blocks {
 				for _, in := range b.Instrs {
 					if ret, ok := in.(*ssa.Return); ok && len(ret.Results) == 1 {
-						im.SizeKey = exprKey(ret.Results[0])
+						im.SizeKey = sk(ret.Results[0])
 					}
 				}
 			}
@@ -214,7 +214,7 @@ func (dc *diskCtx) ruleGuards(r *Report, im *diskImpl) {
 			if ia, ok := in.(*ssa.IndexAddr); ok && dc.isBlockStorage(ia.X.Type()) {
 				nAccess++
 				r.Sites++
-				idx := exprKey(ia.Index)
+				idx := sk(ia.Index)
 				key := fmt.Sprintf("%s.%s block-index", im.Name, mn)
 				want := idx + " < " + im.SizeKey
 				r.Check("R09a", key+" range", instrPos(in), rs[want],
@@ -247,7 +247,7 @@ func (dc *diskCtx) ruleGuards(r *Report, im *diskImpl) {
 				r.Check("R09a", key+" range", instrPos(in), rs[want],
 					fmt.Sprintf("requires fact `%s` on every path to the syscall; facts here: %v", want, relList(rs)))
 				buf := c.Call.Args[1]
-				lenWant := eqRel("uint64(len("+exprKey(buf)+"))", bs)
+				lenWant := eqRel("uint64(len("+sk(buf)+"))", bs)
 				r.Check("R09a", key+" size", instrPos(in), rs[lenWant],
 					fmt.Sprintf("requires fact `%s` on every path to the syscall; facts here: %v", lenWant, relList(rs)))
 				isParam := false
@@ -256,9 +256,9 @@ func (dc *diskCtx) ruleGuards(r *Report, im *diskImpl) {
 						isParam = true
 					}
 				}
-				r.Check("R09b", key+" buffer", instrPos(in), isParam, "the transferred buffer is "+exprKey(buf)+", must be the caller's buffer parameter unmodified")
+				r.Check("R09b", key+" buffer", instrPos(in), isParam, "the transferred buffer is "+sk(buf)+", must be the caller's buffer parameter unmodified")
 				// offset = int64(addr * BlockSize) (seen through helper calls)
-				offKey := exprKey(c.Call.Args[2])
+				offKey := sk(c.Call.Args[2])
 				okOff := false
 				a := addr.Name()
 				for _, w := range []string{"int64((" + a + " * " + bs + "))", "int64((" + bs + " * " + a + "))"} {
@@ -272,7 +272,7 @@ func (dc *diskCtx) ruleGuards(r *Report, im *diskImpl) {
 					}
 				}
 				r.Check("R09b", key+" offset", instrPos(in), okOff,
-					fmt.Sprintf("offset is %s, must be int64(%s*%s)", exprKey(c.Call.Args[2]), addr.Name(), bs))
+					fmt.Sprintf("offset is %s, must be int64(%s*%s)", sk(c.Call.Args[2]), addr.Name(), bs))
 			}
 			// any other positioned/unpositioned I/O on the descriptor is outside the register model
 			if _, name, ok := unixCall(in); ok {
@@ -298,7 +298,7 @@ func (dc *diskCtx) ruleGuards(r *Report, im *diskImpl) {
 				c := st.(*ssa.Call)
 				src := c.Call.Args[1]
 				rs := p.RelsAt(fm, st)
-				lenWant := eqRel("uint64(len("+exprKey(src)+"))", bs)
+				lenWant := eqRel("uint64(len("+sk(src)+"))", bs)
 				r.Check("R09a", fmt.Sprintf("%s.Write copy size", im.Name), instrPos(st), rs[lenWant],
 					fmt.Sprintf("storing a block requires fact `%s`; facts here: %v", lenWant, relList(rs)))
 				isParam := false
@@ -307,7 +307,7 @@ func (dc *diskCtx) ruleGuards(r *Report, im *diskImpl) {
 						isParam = true
 					}
 				}
-				r.Check("R09b", fmt.Sprintf("%s.Write copy source", im.Name), instrPos(st), isParam, "the stored data is "+exprKey(src)+", must be the caller's block unmodified")
+				r.Check("R09b", fmt.Sprintf("%s.Write copy source", im.Name), instrPos(st), isParam, "the stored data is "+sk(src)+", must be the caller's block unmodified")
 			}
 		}
 		if mn != "Read" && nAccess == 0 {
@@ -339,7 +339,7 @@ func (dc *diskCtx) ruleReadFresh(r *Report, im *diskImpl, f *ssa.Function) {
 				what = append(what, "make")
 			default:
 				fresh = false
-				what = append(what, exprKey(o))
+				what = append(what, sk(o))
 			}
 		}
 		r.Check("R09c", im.Name+".Read result-fresh", instrPos(in), fresh,
@@ -519,7 +519,7 @@ func (dc *diskCtx) ruleZeroInit(r *Report) {
 				}
 			}
 			r.Check("R09h", "storage init in "+FuncName(f), instrPos(in), isMake && okLen,
-				"block storage must be make([][BlockSize]byte, numBlocks) with the constructor's parameter as length; got "+exprKey(st.Val))
+				"block storage must be make([][BlockSize]byte, numBlocks) with the constructor's parameter as length; got "+sk(st.Val))
 		})
 	}
 	if !found {
@@ -581,7 +581,7 @@ func (dc *diskCtx) checkForwarder(r *Report, rule string, f *ssa.Function, mn st
 		} else {
 			for i, a := range c.Args {
 				if a != ssa.Value(f.Params[i]) {
-					ok, why = false, fmt.Sprintf("argument %d is %s, not parameter %s", i, exprKey(a), f.Params[i].Name())
+					ok, why = false, fmt.Sprintf("argument %d is %s, not parameter %s", i, sk(a), f.Params[i].Name())
 				}
 			}
 		}
@@ -885,22 +885,22 @@ func accessDesc(in ssa.Instruction) string {
 		n = strings.TrimPrefix(n, "builtin.")
 		var as []string
 		for _, a := range x.Call.Args {
-			as = append(as, exprKey(a))
+			as = append(as, sk(a))
 		}
 		if i := strings.LastIndex(n, "/"); i >= 0 {
 			n = n[i+1:]
 		}
 		return n + "(" + strings.Join(as, ",") + ")"
 	case *ssa.MapUpdate:
-		return exprKey(x.Map) + "[" + exprKey(x.Key) + "] = …"
+		return sk(x.Map) + "[" + sk(x.Key) + "] = …"
 	case *ssa.Lookup:
-		return exprKey(x.X) + "[" + exprKey(x.Index) + "]"
+		return sk(x.X) + "[" + sk(x.Index) + "]"
 	case *ssa.Store:
-		return "store " + exprKey(x.Addr)
+		return "store " + sk(x.Addr)
 	case *ssa.UnOp:
-		return "load " + exprKey(x.X)
+		return "load " + sk(x.X)
 	case *ssa.Range:
-		return "range " + exprKey(x.X)
+		return "range " + sk(x.X)
 	case *ssa.Next:
 		return "next of range"
 	case *ssa.Panic:
@@ -909,7 +909,7 @@ func accessDesc(in ssa.Instruction) string {
 		return "return"
 	}
 	if v, ok := in.(ssa.Value); ok {
-		return exprKey(v)
+		return sk(v)
 	}
 	return in.String()
 }
